@@ -778,11 +778,132 @@ class Own:
                             rs = vs.eval(rel["e"], st[0])
                             if rs:
                                 rets |= set(rs)
-            # by convention objects are handed out on success; keep only values that are also returned after the store
+            # objects are handed out on success; on a failure value the out-parameter still holds the object only when some
+            # path from the store to a return of that value neither clears `*out` nor releases it
             key = frozenset([param_idx[pn]])
             succ = {x for x in rets if x in ("ARES_SUCCESS", "ARES_TRUE")}
-            result[key] = frozenset(succ) if succ else frozenset(rets)
+            keep = set(succ) if succ else set(rets)
+            if succ and is_enum:
+                keep |= self._still_set_on_failure(f, vs, b, i, pn) - succ
+            result[key] = frozenset(keep) | result.get(key, frozenset())
         return result
+
+    def _still_set_on_failure(self, f, vs, sb, si, pn):
+        """return values of the exits that can be reached, on some path through the store (sb,si) of `*pn`, without `*pn` being
+        cleared, released or handed on afterwards and without taking an edge on which `*pn` is NULL (path-sensitive in the status)"""
+        from lib import ValueSets, Summaries
+        if not hasattr(self, "_plain_summ"):
+            self._plain_summ = Summaries(self.prog)
+        store_el = f.blocks[sb.id].els[si]
+
+        def clears(el):
+            if el["k"] == "asg":
+                l = strip(el["e"]["l"])
+                if l is not None and l.get("k") == "un" and l["op"] == "*" and path(l["e"]) == pn:
+                    return True
+            if el["k"] == "call":
+                summ = None
+                for kx, a in enumerate(el["e"].get("args", [])):
+                    a2 = strip(a)
+                    if a2 is not None and a2.get("k") == "un" and a2["op"] == "*" and path(a2["e"]) == pn:
+                        cal = el["e"].get("callee") or ""
+                        if cal in BASE_FREE or "destroy" in cal or cal.endswith("_free") or "free_" in cal:
+                            return True
+                        if summ is None:
+                            summ = self.call_summary(f, el["e"]) or []
+                        if any(kx in cons for (_r, cons, _p, _ro, _np) in summ):
+                            return True
+            return False
+
+        def on_el(extra, blk, i, el, get):
+            if el is store_el:
+                return ["H"]
+            if extra == "H" and clears(el):
+                return [""]
+            return [extra]
+
+        def on_edge(extra, blk, cond, pol, get):
+            if extra != "H":
+                return extra
+            for c3, p3 in atoms(cond, pol):
+                op, l3, r3 = norm_cmp(c3, p3)
+                l4 = strip(l3)
+                if l4 is not None and l4.get("k") == "un" and l4["op"] == "*" and path(l4["e"]) == pn:
+                    if (op == "==" and r3 is not None and is_null(r3)) or op == "false":
+                        return ""
+                if l4 is not None and l4.get("k") == "var" and l4["n"] == pn:
+                    if (op == "==" and r3 is not None and is_null(r3)) or op == "false":
+                        return None      # `out` itself NULL after `*out` was stored: infeasible
+            return extra
+        def call_value(extra, e):
+            c = e
+            if c.get("ref"):
+                x = f.call_by_id(c["id"])
+                c = x[2] if x else c
+            if c.get("callee") == "ares_buf_consume" and self._consume_cannot_fail(f, c):
+                return frozenset(["ARES_SUCCESS"])
+            return None
+        try:
+            v2 = ValueSets(self.prog, f, summaries=self._plain_summ, on_el=on_el, on_edge=on_edge, init_extra="", cap=4096, call_value=call_value)
+        except AnalysisBroken:
+            return set()
+        out = set()
+        for rb, ri, rel in f.returns():
+            for st in v2.states_at(rb, ri):
+                if st[1] != "H":
+                    continue
+                rs = v2.eval(rel.get("e"), st[0]) if rel.get("e") is not None else None
+                if rs:
+                    out |= set(rs)
+        return out
+
+    def _consume_cannot_fail(self, f, c):
+        """`ares_buf_consume(buf, n)` cannot fail when the function returned early unless `remaining >= n`, with `remaining` obtained from
+        ares_buf_fetch/ares_buf_peek(buf, &remaining) and neither changed since (idiom of the fetch_*_dup helpers)"""
+        args = c.get("args", [])
+        if len(args) < 2:
+            return False
+        bufn, lenn = path(args[0]), path(args[1])
+        if bufn is None or lenn is None:
+            return False
+        remn = None
+        for b, i, el in f.elements():
+            cn = None
+            if el["k"] == "decl":
+                for v in el["vars"]:
+                    e = strip(v.get("init")) if v.get("init") is not None else None
+                    if e is not None and e.get("k") == "call":
+                        cn = e
+            elif el["k"] == "asg":
+                e = strip(el["e"].get("r"))
+                if e is not None and e.get("k") == "call":
+                    cn = e
+            if cn is None:
+                continue
+            if cn.get("ref"):
+                x = f.call_by_id(cn["id"])
+                cn = x[2] if x else cn
+            if cn.get("callee") in ("ares_buf_fetch", "ares_buf_peek") and path(call_arg(cn, 0)) == bufn:
+                a1 = strip(call_arg(cn, 1))
+                if a1 is not None and a1.get("k") == "un" and a1["op"] == "&":
+                    remn = path(a1["e"])
+        if remn is None:
+            return False
+        # an early return under `remaining < n`
+        for b in f.blocks.values():
+            br = f.branch(b)
+            if not br:
+                continue
+            for c3, p3 in atoms(br[0], False):
+                op, l3, r3 = norm_cmp(c3, p3)
+                if r3 is not None and path(l3) == remn and path(r3) == lenn and op == ">=":
+                    ts = f.blocks.get(br[1])
+                    if ts is not None and any(el["k"] == "ret" for el in ts.els):
+                        # neither variable is assigned anywhere else
+                        writes = [el for _, _, el in f.elements() if el["k"] == "asg" and path(el["e"]["l"]) in (remn, lenn)]
+                        if not writes:
+                            return True
+        return False
 
     def _produced_via_callee(self, f, out_params, param_idx):
         res = {}
